@@ -11,4 +11,5 @@ CONSTANTS
   Junk = 34
   EmitOn = TRUE
 INVARIANTS ResumeEqFresh Idempotent Stable OffsSane Emit EmitTwo EmitByte
+PROPERTY MonotoneCont
 CHECK_DEADLOCK FALSE
